@@ -94,6 +94,25 @@ Theorem strict_run_rung_rejects_export :
 Proof. exact strict_rejects_empty_run. Qed.
 Print Assumptions strict_run_rung_rejects_export.
 
+(* runTransform absent (the field is optional; absent = identity): the relation entry
+   the importer records for a run equals the exported one - so runs_roundtrip's
+   hypothesis-free attribute equality carries over - whenever the field is present, and
+   when it is absent provided every transform is the identity AND the importer honours
+   the back-side bit in that arm (flag read from src/impl.h into Gen/Ladder.v; the
+   obligation the check evaluates) or the run is front-side.  Before
+   hooks/fix_C08_3.patch the arm recorded `false`: refuted for a back-side run. *)
+Theorem runs_roundtrip_without_runtransform :
+  forall (honours : bool) (identity : Z) (r : rel),
+    import_rel honours true identity r = r /\
+    (rXform r = identity -> (honours = true \/ rFlags r mod 2 = 0) -> import_rel honours false identity r = r).
+Proof. exact (fun h i r => conj (import_rel_present h i r) (import_rel_absent h i r)). Qed.
+Print Assumptions runs_roundtrip_without_runtransform.
+
+Theorem runs_without_runtransform_refuted_before_fix :
+  import_rel false false 0 (mkRel 5 0 1) <> mkRel 5 0 1 /\ import_rel false false 0 (mkRel 5 0 3) = mkRel 5 0 2.
+Proof. exact import_rel_absent_refuted. Qed.
+Print Assumptions runs_without_runtransform_refuted_before_fix.
+
 (* The tangent statement is FALSE for the pinned exporter: it sorts triangles
    into runs (triNew2Old) but copies halfedgeTangent_ in internal order.
    Witness: two triangles of two runs stored in the order (run 2, run 1). *)
